@@ -43,6 +43,32 @@ func init() {
 			e.discharged++
 			return nil
 		},
+		// verifNoRawFlow(render, x, what): byte-provenance obligation (see harness/api.go)
+		pp + "verifNoRawFlow": func(e *Exec, a []Value) Value {
+			res := e.call(a[0], []Value{a[1]}, 0).(Tuple)
+			if ok := res[1].(*Term); !ok.IsConst() || ok.V == 0 {
+				if !ok.IsConst() {
+					e.cut("verifNoRawFlow: symbolic ok flag")
+				}
+				return nil
+			}
+			out := res[0].(Str)
+			what := a[2].(Str).s
+			e.obligations++
+			cond := tTrue
+			for i := 0; i < out.Len(); i++ {
+				b := out.At(i)
+				if b.IsConst() {
+					continue
+				}
+				for _, c := range []byte{'<', '>', '"', '\'', '&'} {
+					cond = And(cond, Not(Eq(b, Const(8, uint64(c)))))
+				}
+			}
+			e.obligations--
+			e.assertTerm(cond, what)
+			return nil
+		},
 		pp + "verifEpoch": func(e *Exec, a []Value) Value { e.epoch++; return nil },
 		pp + "verifObserve": func(e *Exec, a []Value) Value {
 			v := a[1]
@@ -136,7 +162,7 @@ func init() {
 			if s.Concrete() && old.Concrete() && nw.Concrete() && n.IsConst() {
 				return Str{s: strings.Replace(s.s, old.s, nw.s, int(sx(64, n.V)))}
 			}
-			if !old.Concrete() || old.Len() == 0 || !n.IsConst() {
+			if old.Len() == 0 || !n.IsConst() {
 				e.cut("unsupported-symbolic:Replace")
 			}
 			cnt := int(sx(64, n.V))
